@@ -110,7 +110,7 @@ def build():
             ctx.check("no-other-qubit-is-rotated", others == [])
         return f
 
-    for variant in ("recv_keep", "recv_keep_with_info", "recv_keep_post", "recv_rsp", "recv_rsp_with_info"):
+    for variant in ("recv_keep", "recv_keep_with_info", "recv_keep_post", "recv_keep_post_nonseq", "recv_rsp", "recv_rsp_with_info"):
         for hw in ("generic", "nv"):
             for number in (1, 2, 3, 4):
                 for extra in (0, 1):
@@ -195,6 +195,39 @@ def build():
                           ctx.and_(ctx.implies(flip, ctx.eq(got, want_flipped)), ctx.implies(ctx.not_(flip), ctx.eq(got, raws[i]))))
                 ctx.check(f"pair[{i}]: raw outcome available unprocessed", ctx.eq(ctx.call(int, res[i].raw_measurement_outcome), raws[i]))
         return f
+    def mk_create_measure(number):
+        """the CREATOR of measure-directly pairs never post-processes: its outcomes are the raw ones for every Bell state
+        (the receiver alone compensates, so that the joint statistics are those of Phi+)"""
+        def f(ctx):
+            from netqasm.qlink_compat import Basis, LinkLayerOKTypeM
+            sock = EPRSocket("Bob")
+            conn, ex = make_pipeline(ctx, "Alice", epr_sockets=[sock])
+            if ctx.symbolic:
+                _install(ctx, ex, False)
+            bells = [ctx.enum(f"bell{i}", BellState) for i in range(number)]
+            raws = [ctx.int(f"raw{i}", 0, 1) for i in range(number)]
+            done = {"n": 0}
+
+            def run(sub):
+                def on_wait(k):
+                    if done["n"]:
+                        return
+                    for key, q in table_entries(ex._epr_create_requests):
+                        for i in range(number):
+                            done["n"] += 1
+                            ctx.call(ex._handle_epr_response, LinkLayerOKTypeM(type=ReturnType.OK_M, measurement_outcome=raws[i], measurement_basis=Basis.Z, directionality_flag=0,
+                                                                              sequence_number=i, purpose_id=key[1], remote_node_id=key[0], bell_state=bells[i]))
+                drive(ctx, ex, sub, on_wait)
+            conn.runner = run
+            res = ctx.call(sock.create_measure, number=number)
+            ctx.call(conn.flush)
+            ctx.check("all-responses-delivered", done["n"] == number)
+            for i in range(number):
+                ctx.check(f"pair[{i}]: the creator's outcome is the raw one whatever the Bell state", ctx.eq(ctx.getattr(res[i], "measurement_outcome"), raws[i]))
+        return f
+    for number in (1, 2):
+        R.add(f"measure-directly[create_measure, {number} pairs]", kind="lia", samples=20, max_paths=4000)(mk_create_measure(number))
+
     for number in (1, 2, 3):
         R.add(f"measure-directly[recv_measure, {number} pairs]", kind="lia", samples=20, max_paths=4000, thorough_only=(number >= 3))(mk_measure_e2e(number, True))
     R.add("measure-directly[recv_measure, expectation off]", kind="lia", samples=20, max_paths=400)(mk_measure_e2e(2, False))
